@@ -44,14 +44,31 @@ RULE = ("random schedules (uniform, bursty, one thread stalled after its CAS, co
         "consumers x 3 pops and of other thread mixes (3+1, 1+3, threads that both push and pop) on raw queues of requested "
         "size 0..9 (normalised to 2,4,8,16) with slot segment sizes 2,3,4,2048 and through both ff_unbounded_queue "
         "specialisations; sizes 2 and 4 make tickets wrap around the slot array; sequential uSWSR_Ptr_Buffer runs across its "
-        "segment boundary; thorough adds every schedule prefix of fixed length for tiny configurations and a free-running "
+        "segment boundary; backlog cases push N elements before the first pop for N around slots x segment size (small "
+        "geometries under the scheduler with full traces; the compiled default geometry, read from the harness, as a "
+        "count/order digest with 1 and 2 producer threads); thorough adds every schedule prefix of fixed length for tiny configurations and a free-running "
         "16-thread stress. non-trivial = the trace contains a failed CAS, a retry, an empty pop or a ticket >= the number "
         "of slots; distinct = distinct case lines")
 
 
+# free-running cases are not reproducible step by step: the tag makes their lines long so that the
+# framework prefers a deterministic case as the reported failing input
+FREE_TAG = "free-running-real-threads-(schedule-chosen-by-the-OS,-summary-only)"
+GEOM = {"nq": 4, "seg": 2048}      # replaced in build() by what the compiled queue reports
+
+
 def build(tier):
-    return {"impl": [B.harness("h_c30", runtime=[], extra_link=["-lpthread"])], "per_case_timeout": 200,
-            "batch_timeout": 1500}
+    exe = B.harness("h_c30", runtime=[], extra_link=["-lpthread"])
+    # the default geometry (DEFAULT_NUM_QUEUES x DEFAULT_uSPSC_SIZE) as compiled from the tree under test
+    try:
+        import subprocess
+        out = subprocess.run([exe], input=b"k\n", stdout=subprocess.PIPE, stderr=subprocess.PIPE, timeout=60).stdout.decode()
+        m = re.match(r"CONST nq=(\d+) seg=(\d+)", out)
+        if m:
+            GEOM["nq"], GEOM["seg"] = int(m.group(1)), int(m.group(2))
+    except Exception:
+        pass
+    return {"impl": [exe], "per_case_timeout": 200, "batch_timeout": 1500}
 
 
 # ---------------------------------------------------------------------------------- generators
@@ -69,7 +86,7 @@ def mk_progs(shape):
         for o in ops:
             if o == "p":
                 k += 1
-                pr.append((t + 1) * 10 + k)
+                pr.append((t + 1) * 100 + k)
             else:
                 pr.append(0)
         progs.append(pr)
@@ -160,6 +177,21 @@ def gen_cases(rng, tier):
     for _ in range(60 if thorough else 12):
         cs.append(sched_case(rng, ["pppppppp", "pppppppp", "cccccccccc", "cccccccccc"], 2, 2, "q", "long-wrap",
                              length=rng.randrange(100, 400)))
+    # backlog: everything is pushed before anything is popped, around the capacity (slots x segment) of the
+    # first segments.  Small geometries through the scheduler (full traces), the default geometry as a digest.
+    for nq, seg in ((2, 2), (2, 3), (4, 2)):
+        cap = nq * seg
+        for n in (cap - 1, cap, cap + 1, 3 * cap + 1):
+            prog = ["p" * n, "c" * n]
+            cs.append(Case("q %d %d %s %s" % (nq, seg, progs_str(mk_progs(prog)), "0" * (5 * n)), "backlog-small"))
+            half = ["p" * (n - n // 2), "p" * (n // 2), "c" * n]
+            cs.append(Case("q %d %d %s %s" % (nq, seg, progs_str(mk_progs(half)), "01" * (5 * n)), "backlog-small"))
+    cap = GEOM["nq"] * GEOM["seg"]
+    for n in (cap - 1, cap, cap + 1, 2 * cap + 3 * GEOM["seg"] + 5):
+        cs.append(Case("b w %d %d 1 %d" % (GEOM["nq"], GEOM["seg"], n), "backlog-default"))
+        cs.append(Case("b w %d %d 2 %d" % (GEOM["nq"], GEOM["seg"], n), "backlog-default"))
+    cs.append(Case("b q 2 16 1 %d" % (2 * 16 + 1), "backlog-default"))
+    cs.append(Case("b q 8 64 3 %d" % (8 * 64 * 2 + 7), "backlog-default"))
     # the slot buffer alone
     for _ in range(400 if thorough else 80):
         cs.append(slot_case(rng, rng.choice((2, 3, 4, 5, 8)), rng.randrange(0, 80), "slot-small"))
@@ -176,13 +208,13 @@ def gen_cases(rng, tier):
             pr = progs_str(mk_progs(shape))
             for bits in itertools.product("012", repeat=L):
                 cs.append(Case("q %d 2 %s %s" % (nq, pr, "".join(bits)), "all-prefixes-3thr"))
-        cs.append(Case("f 8 8 100000 4", "free-run"))
-        cs.append(Case("f 8 8 100000 2", "free-run"))
-        cs.append(Case("f 15 1 20000 4", "free-run"))
-        cs.append(Case("f 1 15 100000 8", "free-run"))
+        cs.append(Case("f 8 8 100000 4 " + FREE_TAG, "free-run"))
+        cs.append(Case("f 8 8 100000 2 " + FREE_TAG, "free-run"))
+        cs.append(Case("f 15 1 20000 4 " + FREE_TAG, "free-run"))
+        cs.append(Case("f 1 15 100000 8 " + FREE_TAG, "free-run"))
     else:
-        cs.append(Case("f 4 4 5000 4", "free-run"))
-        cs.append(Case("f 2 2 5000 2", "free-run"))
+        cs.append(Case("f 4 4 5000 4 " + FREE_TAG, "free-run"))
+        cs.append(Case("f 2 2 5000 2 " + FREE_TAG, "free-run"))
     return cs
 
 
@@ -199,6 +231,8 @@ def nontrivial(case, r):
         return "e" in r and len(w[2]) > int(w[1])
     if w[0] == "f":
         return r.startswith("FREE")
+    if w[0] == "b":
+        return r.startswith("BACKLOG") and int(w[5]) > int(w[2]) * int(w[3])
     if w[0] == "q":
         nq = max(2, int(w[1]))
     else:
